@@ -318,7 +318,10 @@ class HybridLoad:
             # greater than the tolerance, then the two-day peak load contains
             # a load greater than the current months peak load. The tolerance
             # could ONLY be exceeded when the first 24 hours is located in the
-            # previous month.
+            # previous month. A two-day peak load that is greater by less than
+            # the tolerance is used as well: scaling the nominal loads by a
+            # smaller value lets the nominal response exceed the peak response,
+            # and the peak duration then leaves the two-day window.
             tol = 0.1
 
             # Ensure the peak load for the two-day load profile is the same or
@@ -326,7 +329,7 @@ class HybridLoad:
             # the previous month contains a higher load than the current month.
             load_diff = self.monthly_peak_cl[i] - max(current_two_day_cl_load)
             # monthly peak cooling load (or heat rejection) in kW
-            current_month_peak_cl = self.monthly_peak_cl[i] if abs(load_diff) < tol else max(current_two_day_cl_load)
+            current_month_peak_cl = self.monthly_peak_cl[i] if 0.0 <= load_diff < tol else max(current_two_day_cl_load)
 
             # monthly average cooling load (or heat rejection) in kW
             current_month_avg_cl = self.monthly_avg_cl[i]
@@ -353,7 +356,7 @@ class HybridLoad:
             # the previous month contains a higher load than the current month.
             load_diff = self.monthly_peak_hl[i] - max(current_two_day_hl_load)
             # monthly peak cooling load (or heat rejection) in kW
-            current_month_peak_hl = self.monthly_peak_hl[i] if abs(load_diff) < tol else max(current_two_day_hl_load)
+            current_month_peak_hl = self.monthly_peak_hl[i] if 0.0 <= load_diff < tol else max(current_two_day_hl_load)
 
             # monthly average heating load (or heat extraction) in kW
             current_month_avg_hl = self.monthly_avg_hl[i]
